@@ -572,6 +572,9 @@ impl Gen {
             return None;
         }
         let name = match ty {
+            // registered as capturing closures (host.rs)
+            Ty::Int(IntTy::I64) if self.rng.chance(1, 3) => "in_cap_i64".into(),
+            Ty::Int(IntTy::U32) if self.rng.chance(1, 3) => "in_cap_u32".into(),
             Ty::Int(t) => format!("in_{}", t.name()),
             Ty::F32 => "in_f32".into(),
             Ty::F64 => "in_f64".into(),
